@@ -38,10 +38,11 @@ def gen_graph(rng):
         elif r < 0.5:
             vars_[nm] = ("ref", rng.choice(names))                 # may be forward, self or cyclic
         elif r < 0.6:
-            lists = [n for n in defined if vars_[n][0] == "lit" and isinstance(vars_[n][1], list)]
+            ev = evaluate(vars_)
+            lists = [n for n in defined if ev[n] is not None and isinstance(ev[n][1], list)]      # lists, also through aliases
             if lists:
                 ln = rng.choice(lists)
-                vars_[nm] = ("idx", ln, rng.randrange(len(vars_[ln][1])))
+                vars_[nm] = ("idx", ln, rng.randrange(len(ev[ln][1])))
             else:
                 vars_[nm] = ("lit", rng.randint(0, 9))
         elif r < 0.7:
@@ -198,6 +199,8 @@ def process(ctx: Ctx, cases: list[dict]) -> None:
             fs.append([comps, {"json": enc_entries(_json.loads(text))} if nm.endswith(".json") else {"native": text}])
         reqs.append({"op": "read", "fs": fs, "path": ["R", c["root"]], "start": -1})
     replies = [None] * len(cases) if ctx.oracle_only else ctx.driver(reqs)
+    sreqs = [dict(r, scope=[{"s": "sub"}, {"s": "deeper"}]) for r, c in zip(reqs, cases) if "nested" in c.get("place", {}).values()]
+    sreplies = iter([] if ctx.oracle_only else ctx.driver(sreqs))
     for c, m in zip(cases, replies):
         vars_ = {k: tuple(v) for k, v in c["vars"].items()}
         exp = evaluate(vars_)
@@ -238,6 +241,28 @@ def process(ctx: Ctx, cases: list[dict]) -> None:
                 unresolved = [r for r in refs if exp.get(r) is None]
                 if not all(f"${r}" in g for r in unresolved):
                     ctx.violation("an unresolvable reference is not left as its original text", c, {"key": nm, "got": g}, [f"${r}" for r in unresolved]); break
+        nested = [nm for nm in vars_ if c.get("place", {}).get(nm) == "nested"]
+        if nested:
+            sm = next(sreplies, None)
+            # the same file read with scope=[sub, deeper]: the entries inside the scope hold the same values
+            # (references from inside the scope to keys outside it included)
+            try:
+                with impl.scratch() as td:
+                    for nm, text in c["files"].items():
+                        (td / nm).write_text(text)
+                    reset_globals()
+                    scoped = spec.strip_placeholders(impl.plain(DictReader.read(td / c["root"], scope=["sub", "deeper"])))
+            except Exception as e:  # noqa: BLE001
+                ctx.violation("DictReader.read(scope=...) raises", c, repr(e), "result"); continue
+            ctx.tag("scoped-read")
+            if isinstance(sm, dict) and "sd" in sm:
+                md = spec.strip_placeholders(dec({"d": canon_floats(sm["sd"])["data"]}))
+                if not same(md, scoped) or list(md) != list(scoped):
+                    ctx.disagree("DictReader.read(scope=[sub, deeper])", {"files": c["files"], "root": c["root"]}, enc(md), enc(scoped))
+            for nm in nested:
+                if nm not in scoped or not same(scoped[nm], got.get(nm)):
+                    ctx.violation("read(scope=...) gives an entry a different value than the unscoped read", c,
+                                  {"key": nm, "scoped": enc(scoped.get(nm)), "unscoped": enc(got.get(nm))}, "equal", replay=c); break
         if m is not None:
             if isinstance(m, dict) and "sd" in m:
                 msd = canon_floats(m["sd"])
@@ -264,7 +289,7 @@ def well_typed(vars_) -> bool:
 
 def mk_case(rng, vars_):
     files, root, place = render(rng, vars_)
-    return {"kind": "graph", "vars": {k: list(v) for k, v in vars_.items()}, "files": files, "root": root}
+    return {"kind": "graph", "vars": {k: list(v) for k, v in vars_.items()}, "files": files, "root": root, "place": place}
 
 
 def run(ctx: Ctx) -> None:
@@ -279,7 +304,9 @@ def run(ctx: Ctx) -> None:
               {"s": ("lit", "x\\1y"), "t": ("ref", "s")}, {"s": ("lit", "e"), "t": ("ref", "s")}, {"s": ("lit", "1+1"), "t": ("ref", "s")},
               {"l": ("lit", [4, 5, 6]), "i": ("idx", "l", 1), "j": ("expr", "$i * 2", ["i"])},
               {"a": ("lit", 2), "b": ("ref", "a"), "c": ("ref", "b"), "d": ("expr", "$c * $c - $a", ["c", "c", "a"])},
-              {"p": ("ref", "nope"), "q": ("expr", "$p + 1", ["p"])}]
+              {"p": ("ref", "nope"), "q": ("expr", "$p + 1", ["p"])},
+              {"l": ("lit", [1, 2, 3]), "m": ("ref", "l"), "n": ("ref", "m"), "d": ("idx", "n", 1), "e": ("idx", "m", 2)},
+              {"a": ("lit", -3), "b": ("expr", "$a**2", ["a"]), "c": ("expr", "2 - $a", ["a"]), "d": ("expr", "-$a", ["a"])}]
     for v in corpus:
         for _ in range(3):
             cases.append(mk_case(rng, v)); ctx.corpus_cases += 1
@@ -309,5 +336,18 @@ def _w13() -> bool:
         return DictReader.read(td / "f")["m"] == "$n"
 
 
-KNOWN_CLASSES = {"none_valued_reference": _d13}
-WITNESSES = {"D13": _w13}
+def _d38(v: dict) -> bool:
+    """`**` applied to a reference: the value is substituted as text, so a negative value loses to the operator's precedence"""
+    vars_ = v["input"].get("vars", {})
+    return any(sp[0] == "expr" and re.search(r"\$\w+\s*\*\*", sp[1]) for sp in vars_.values())
+
+
+def _w38() -> bool:
+    from dictIO import DictReader
+    with impl.scratch() as td:
+        (td / "f").write_text('a -3; b "$a**2";\n')
+        return DictReader.read(td / "f")["b"] == -9
+
+
+KNOWN_CLASSES = {"none_valued_reference": _d13, "power_of_negative_reference": _d38}
+WITNESSES = {"D13": _w13, "D38": _w38}
